@@ -556,3 +556,90 @@ Proof.
   - intros C. destruct (Ies _ _ (Cover _ evs e Pe I N ltac:(cbv beta; rewrite C; reflexivity))) as (m & E & Im). eauto.
   - intros C. destruct (Irs _ _ (Cover _ ers e Pr I N ltac:(cbv beta; rewrite C; reflexivity))) as (m & E & Im). eauto.
 Qed.
+
+(* ---------- the ABI -> FFI direction never panics either (any ABI, valid or not) ---------- *)
+Definition FT (p : fparam) : Prop :=
+  forall tc, parseABIParameterComponents (erase p) = Ok tc ->
+  exists s, getSchemaForABIInput p tc = Ok s /\ s_details s = Some (det_of p).
+
+Lemma tuple_props_ok : forall cs children i acc,
+  Forall2 (fun c ch => parseABIParameterComponents (erase c) = Ok ch) cs children ->
+  Forall FT cs -> exists props, tuple_props children cs i acc = Ok props.
+Proof.
+  induction cs as [|c cs IH]; intros children i acc HP HF; inversion HP as [|? ch ? chs Hc Hcs]; subst.
+  - cbn. eauto.
+  - inversion HF as [|? ? Fc Fcs]; subst. destruct (Fc ch Hc) as (s & Gs & Ds).
+    cbn [tuple_props]. rewrite Gs. cbn [bind]. rewrite (set_index_with i s _ Ds). cbn [bind].
+    apply IH; assumption.
+Qed.
+
+Lemma forward_param p : FT p.
+Proof.
+  induction p as [n T i x cs IH] using fparam_ind'. intros tc HP.
+  cbn [erase] in HP. rewrite parse_unfold in HP. cbv zeta in HP.
+  set (sa := splitElementaryTypeSuffix T (length (take_lower T))) in *.
+  destruct (parse_base (take_lower T) (fst sa) (map erase cs)) as [base| |] eqn:EB; cbn [bind] in HP; try discriminate.
+  assert (exists ds, tc = wrap_tc base ds) as [ds ->].
+  { destruct (negb (is_nil (snd sa))).
+    - apply parseArrays_sound in HP. destruct HP as (ds & _ & _ & _ & ->). eauto.
+    - injection HP as <-. exists []. reflexivity. }
+  set (p := FParam n T i x cs).
+  assert (exists sb, getSchemaForABIInput p base = Ok sb /\ s_details sb = Some (det_of p)) as (sb & Gb & Db).
+  { unfold parse_base in EB.
+    destruct (bytes_eqb (take_lower T) (ascii_bytes tuple_type_string)).
+    - destruct (negb (is_nil (fst sa))); [discriminate|].
+      destruct (parse_list (map erase cs)) as [children| |] eqn:EL; cbn [bind] in EB; try discriminate.
+      injection EB as <-. apply parse_list_forall2 in EL.
+      assert (F2 : Forall2 (fun c ch => parseABIParameterComponents (erase c) = Ok ch) cs children).
+      { clear -EL. remember (map erase cs) as l eqn:El. revert cs El.
+        induction EL as [|a c l chs Ha _ IHl]; intros [|c0 cs] El; try discriminate; constructor.
+        - cbn in El. injection El as -> _. exact Ha.
+        - apply IHl. cbn in El. injection El as _ ->. reflexivity. }
+      destruct (tuple_props_ok cs children 0%nat [] F2 IH) as (props & Tp).
+      rewrite getSchema_tuple. cbn [fp_comps p]. rewrite Tp. cbn [bind]. eauto.
+    - destruct (lookup_et (take_lower T)) as [et|]; [|discriminate].
+      destruct (parse_elementary_elem _ _ _ EB) as (s & m & n0 & ->).
+      cbn [getSchemaForABIInput]. destruct (elementary_json (et_json et)) as [t o]. eauto. }
+  exists (Nat.iter (length ds) lift sb). split.
+  - apply getSchema_wrap. exact Gb.
+  - rewrite iter_lift_details. exact Db.
+Qed.
+
+Lemma paramToFFI_total p : paramToFFI p <> Panic.
+Proof.
+  unfold paramToFFI. pose proof (parse_no_panic (erase p)) as T.
+  destruct (parseABIParameterComponents (erase p)) as [tc| |] eqn:E; cbn [bind]; try congruence.
+  destruct (forward_param p tc E) as (s & -> & _). discriminate.
+Qed.
+
+Lemma paramsToFFI_total l : paramsToFFI l <> Panic.
+Proof.
+  induction l as [|p l IH]; cbn; [discriminate|]. pose proof (paramToFFI_total p) as T.
+  destruct (paramToFFI p); cbn; try congruence. destruct (paramsToFFI l); cbn; congruence.
+Qed.
+
+Lemma convert_all_total f m : (forall e, f e <> Panic) -> convert_all f m <> Panic.
+Proof.
+  intros T. induction m as [|[k e] m IH]; cbn; [discriminate|]. specialize (T e).
+  destruct (f e); cbn; try congruence. destruct (convert_all f m); cbn; congruence.
+Qed.
+
+Theorem forward_total fs evs ers : ConvertABIToFFI_ord fs evs ers <> Panic.
+Proof.
+  unfold ConvertABIToFFI_ord.
+  assert (T1 : forall e, convertABIFunctionToFFIMethod e <> Panic).
+  { intros e. unfold convertABIFunctionToFFIMethod. pose proof (paramsToFFI_total (e_inputs e)) as A.
+    pose proof (paramsToFFI_total (e_outputs e)) as B.
+    destruct (paramsToFFI (e_inputs e)); cbn; try congruence. destruct (paramsToFFI (e_outputs e)); cbn; congruence. }
+  assert (T2 : forall e, convertABIEventToFFIEvent e <> Panic).
+  { intros e. unfold convertABIEventToFFIEvent. pose proof (paramsToFFI_total (e_inputs e)) as A.
+    destruct (paramsToFFI (e_inputs e)); cbn; congruence. }
+  assert (T3 : forall e, convertABIErrorToFFIError e <> Panic).
+  { intros e. unfold convertABIErrorToFFIError. pose proof (paramsToFFI_total (e_inputs e)) as A.
+    destruct (paramsToFFI (e_inputs e)); cbn; congruence. }
+  pose proof (convert_all_total _ fs T1) as A. pose proof (convert_all_total _ evs T2) as B.
+  pose proof (convert_all_total _ ers T3) as C.
+  destruct (convert_all convertABIFunctionToFFIMethod fs); cbn; try congruence.
+  destruct (convert_all convertABIEventToFFIEvent evs); cbn; try congruence.
+  destruct (convert_all convertABIErrorToFFIError ers); cbn; congruence.
+Qed.
